@@ -16,9 +16,16 @@
 EXTENDS Naturals, Sequences, FiniteSets, TLC, Json
 P == INSTANCE Policy WITH v <- 0
 
-PathSeq == <<"/a", "/m/b", "/m/g", "/m/n/c", "/m/n/f", "/m/n/o/d", "/m/n/o/e", "/m/zz", "/m/n/o/zz">>   \* the last two lead nowhere
-NLeaves == 7
-LeafPaths == {PathSeq[i] : i \in 1..NLeaves}
+(* Pointers are RFC 6901 pointers: inside a segment "~1" stands for "/" and "~0" for "~" (decoded in that order).  The  *)
+(* last two pointers address two sibling keys of map m whose spellings need escapes: KeyOf gives the key each one       *)
+(* addresses.  The key of the first, decoded, is "x/y"; its raw segment "x~1y" is the spelling of the OTHER key.  A tag  *)
+(* applies to the key its pointer addresses and to nothing else (F18: the filter used to mark the raw segment).          *)
+PathSeq == <<"/a", "/m/b", "/m/g", "/m/n/c", "/m/n/f", "/m/n/o/d", "/m/n/o/e", "/m/zz", "/m/n/o/zz",   \* 8 and 9 lead nowhere
+             "/m/x~1y", "/m/x~01y">>
+KeyOf == [p \in {"/m/x~1y", "/m/x~01y"} |-> IF p = "/m/x~1y" THEN "x/y" ELSE "x~1y"]
+LeafIdx == (1..7) \cup {10, 11}
+LeafPaths == {PathSeq[i] : i \in LeafIdx}
+ASSUME KeyOf["/m/x~1y"] # KeyOf["/m/x~01y"]   \* two distinct leaves: a tag on one says nothing about the other
 Cls3 == {"public", "sensitive", "secret"}
 Ops4 == {"", "redact", "encrypt", "hmac-sha256"}
 Tag == [pi : 1..Len(PathSeq), cls : Cls3, op : Ops4]
